@@ -50,7 +50,7 @@ const vWait = 8 * time.Second
 
 func vNewScenario(t *testing.T, base string, w *vWorld, convs []string, free bool) (*vScenario, error) {
 	s := &vScenario{w: w, dirs: map[string]string{"base": base}, fileIDs: map[string]string{}, fileCont: map[string][]vEntry{},
-		defs: map[string]vDef{}, views: map[string]*View{}, viewFirst: map[string]string{}, convNames: convs}
+		defs: map[string]vDef{}, views: map[string]*View{}, viewFirst: map[string]string{}, convNames: convs, orphanFlag: map[string]bool{}}
 	for _, d := range []string{"pcap", "index", "snapshot", "state", "converter", "watch"} {
 		s.dirs[d] = filepath.Join(base, d) + "/"
 		if err := os.MkdirAll(s.dirs[d], 0o755); err != nil {
@@ -97,13 +97,15 @@ while 1:
     lines = []
 `
 
-// after a closure ran: every job whose flag is set must be parked at its start hook or its gate
+// after a closure ran: every job whose flag is set must be parked at its start hook or its gate.
+// A flag that stays set although no job goroutine ever shows up is not a harness problem: it is
+// recorded (the projected state then has the flag without a job) and not waited for again.
 func (s *vScenario) waitJobs() error {
 	st := s.mgr.Status()
 	want := map[string]bool{"import": st.ImportJobCount > 0, "tag": st.TaggingJobRunning, "merge": st.MergeJobRunning, "conv": st.ConverterJobRunning}
 	for _, k := range vKinds {
-		if want[k] && !s.ctl.waitParked(k, vWait) {
-			return fmt.Errorf("%s job is flagged running but never reached a hook", k)
+		if want[k] && !s.orphanFlag[k] && !s.ctl.waitParked(k, vWait) {
+			s.orphanFlag[k] = true
 		}
 	}
 	return nil
